@@ -135,12 +135,43 @@ func (a *Analysis) CheckC19(rep *Report) {
 				}
 			}
 		}
-		var roots []*ssa.Function
-		for fn := range touch {
-			exported := fn.Object() != nil && fn.Object().Exported()
-			if exported || len(callers[fn]) == 0 {
-				roots = append(roots, fn)
+		// entry points: climb from each touching function to the exported (or uncalled) functions through which it is reached
+		allCallers := map[*ssa.Function][]*ssa.Function{}
+		for fn := range a.P.AllFuncs {
+			if !a.P.InModule(fn) || fn.Blocks == nil || a.P.IsTestFile(fn.Pos()) {
+				continue
 			}
+			for _, b := range fn.Blocks {
+				for _, in := range b.Instrs {
+					if c, ok := in.(ssa.CallInstruction); ok {
+						if callee := c.Common().StaticCallee(); callee != nil && a.P.InModule(callee) {
+							allCallers[callee] = append(allCallers[callee], fn)
+						}
+					}
+				}
+			}
+		}
+		var roots []*ssa.Function
+		visited := map[*ssa.Function]bool{}
+		var climb func(fn *ssa.Function)
+		climb = func(fn *ssa.Function) {
+			if visited[fn] {
+				return
+			}
+			visited[fn] = true
+			exported := fn.Object() != nil && fn.Object().Exported() && fn.Signature.Recv() == nil
+			if exported || len(allCallers[fn]) == 0 || isInitFunc(fn) {
+				if !isInitFunc(fn) {
+					roots = append(roots, fn)
+				}
+				return
+			}
+			for _, c := range allCallers[fn] {
+				climb(c)
+			}
+		}
+		for fn := range touch {
+			climb(fn)
 		}
 		sort.Slice(roots, func(i, j int) bool { return roots[i].String() < roots[j].String() })
 		seen := map[*ssa.Function]bool{}
@@ -450,7 +481,8 @@ func (a *Analysis) CheckC20(rep *Report, tier string) {
 		}
 		cs := callersOf[fn]
 		if len(cs) == 0 {
-			return false
+			// nobody in the module calls it (an exported registrar kept for applications): not a run-time writer here
+			return fn.Object() != nil && fn.Object().Exported()
 		}
 		for _, c := range cs {
 			if !isInitFunc(c) {
@@ -653,9 +685,9 @@ func (a *Analysis) CheckC20(rep *Report, tier string) {
 	for _, t := range a.U.Tables {
 		for _, r := range t.Regs {
 			if r.Closure != nil {
-				rep.Ob("V3-factory-captures-nothing", t.Name+"["+r.Key+"]", len(r.Closure.FreeVars) == 0, a.P.Pos(r.Call.Pos()), "registered factory closes over variables of its environment (state shared between calls)")
+				rep.Ob("V3-factory-captures-nothing", t.Name+"["+r.Key+"]", len(r.Closure.FreeVars) == 0, a.P.Pos(r.Pos()), "registered factory closes over variables of its environment (state shared between calls)")
 			}
-			rep.Ob("V3-factory-fresh", t.Name+"["+r.Key+"]", r.Fresh, a.P.Pos(r.Call.Pos()), "factory returns a shared (or nil) object instead of a fresh allocation")
+			rep.Ob("V3-factory-fresh", t.Name+"["+r.Key+"]", r.Fresh, a.P.Pos(r.Pos()), "factory returns a shared (or nil) object instead of a fresh allocation")
 		}
 	}
 	// exported registrars are start-up only by use: no non-init caller in the module
